@@ -417,7 +417,7 @@ func more4PageSizeIsTheRequests(p *Program, r *Report) {
 			}
 			if len(assign) == 0 || len(set) == 0 {
 				// another shape (a nil-tolerant getter): the value must still come from the request's field
-				from := false
+				from := atomsOf(arg)["field:MaxKeys"]
 				for _, rt := range Origins(arg, nil) {
 					if rt.Kind == "field" && rt.Desc == "MaxKeys" {
 						from = true
@@ -1053,6 +1053,31 @@ func isGlobMatcher(g *ssa.Function) bool {
 	return star && qm
 }
 
+// returnsBeforeMatcher: the function literal can return without having called the glob matcher.
+func returnsBeforeMatcher(g *ssa.Function) bool {
+	avoid := map[*ssa.BasicBlock]bool{}
+	for _, c := range callsIn(g) {
+		h := c.Common().StaticCallee()
+		if isGlobMatcher(h) {
+			avoid[c.Block()] = true
+		}
+		if h != nil && len(h.Blocks) == 1 {
+			for _, c2 := range callsIn(h) {
+				if isGlobMatcher(c2.Common().StaticCallee()) {
+					avoid[c.Block()] = true
+				}
+			}
+		}
+	}
+	reach := reachableAvoiding(g, nil, nil, avoid)
+	for _, rt := range returnsOf(g) {
+		if reach[rt.Block()] {
+			return true
+		}
+	}
+	return false
+}
+
 func more4EveryPatternTried(p *Program, r *Report) {
 	r.Rule("R-C14-7", "the evaluator tries every pattern: in Resources.FindMatch each resource of the statement reaches the glob matcher ((auth.Resources).Match, or the function it wraps, recognised by role); no test on the pattern's text skips it (a pattern whose only wildcard is '?' is still a pattern)", 1)
 	f := p.Func("(auth.Resources).FindMatch")
@@ -1068,6 +1093,55 @@ func more4EveryPatternTried(p *Program, r *Report) {
 			for _, c2 := range callsIn(g) {
 				if isGlobMatcher(c2.Common().StaticCallee()) {
 					ms = append(ms, c)
+				}
+			}
+		}
+	}
+	callsMatcher := func(g *ssa.Function) bool {
+		if g == nil {
+			return false
+		}
+		for _, c := range callsIn(g) {
+			h := c.Common().StaticCallee()
+			if isGlobMatcher(h) {
+				return true
+			}
+			if h != nil && len(h.Blocks) == 1 {
+				for _, c2 := range callsIn(h) {
+					if isGlobMatcher(c2.Common().StaticCallee()) {
+						return true
+					}
+				}
+			}
+		}
+		return false
+	}
+	if len(ms) == 0 {
+		// the matcher is called by a function literal handed to an iterating helper (anyKey(r, func(p) bool {...})):
+		// then the helper's loop is the loop, and its call of the function it was given is the matcher call
+		for _, c := range callsIn(f) {
+			h := c.Common().StaticCallee()
+			if h == nil || len(h.Blocks) == 0 {
+				continue
+			}
+			for i, a := range c.Common().Args {
+				if _, isSig := a.Type().Underlying().(*types.Signature); !isSig || i >= len(h.Params) {
+					continue
+				}
+				viaLit := false
+				for _, g := range funcValuesOf(a) {
+					if callsMatcher(g) && !returnsBeforeMatcher(g) {
+						viaLit = true
+					}
+				}
+				if !viaLit {
+					continue
+				}
+				for _, hc := range callsIn(h) {
+					if hc.Common().Value == ssa.Value(h.Params[i]) {
+						f = h
+						ms = append(ms, hc)
+					}
 				}
 			}
 		}
